@@ -408,7 +408,7 @@ func (f *Frame) pkgTypes() *types.Package {
 }
 
 func (f *Frame) loopEnv(li *loopInfo, st *state, edgeFrom *ssa.BasicBlock) *Env {
-	return &Env{u: f.u, f: f, st: st, old: &state{reach: f.entryR, mem: f.entry}, pkg: f.pkgTypes(),
+	return &Env{u: f.u, f: f, st: st, old: &state{reach: f.entryR, mem: f.entry}, pkg: f.pkgTypes(), li: li,
 		bound: map[string]Val{},
 		look: func(name string) (Val, bool) { return f.lookupVar(name, st, li, edgeFrom) }}
 }
